@@ -677,10 +677,15 @@ pub trait IdmServerTransaction<'a> {
 
         if let Some(oauth2_session) = oauth2_session {
             // We have the oauth2 session, lets check it.
-            let oauth2_session_valid = !matches!(oauth2_session.state, SessionState::RevokedAt(_));
+            let oauth2_session_valid = match &oauth2_session.state {
+                SessionState::RevokedAt(_) => false,
+                // A session that has run past its expiry is as unusable as a revoked one.
+                SessionState::ExpiresAt(exp) => (time::OffsetDateTime::UNIX_EPOCH + ct) < *exp,
+                SessionState::NeverExpires => true,
+            };
 
             if !oauth2_session_valid {
-                security_info!("The oauth2 session associated to this token is revoked.");
+                security_info!("The oauth2 session associated to this token is revoked or expired.");
                 return Ok(None);
             }
 
